@@ -24,7 +24,13 @@ def revert():
     sh("git checkout -- . && git clean -fdq -- src tests", REPO)
 def tests_pass():
     rc,out=sh("cargo test --workspace --no-fail-fast --offline 2>&1 | grep -E '^test result' | head -1", REPO)
-    return "59 passed; 0 failed" in out, out.strip()
+    ok = "59 passed; 0 failed" in out
+    if ok and "--benign-seeded" in sys.argv:
+        # property-preserving candidates must keep the suite green under the other two feature sets as well
+        for fl in ("--no-default-features --features alloc", "--no-default-features"):
+            rc2,out2=sh(f"cargo test --offline {fl} --lib 2>&1 | grep -E '^test result' | head -1", REPO)
+            ok = ok and "59 passed; 0 failed" in out2
+    return ok, out.strip()
 def apply_replace(file, old, new):
     p=os.path.join(REPO,file); s=open(p).read()
     if s.count(old)!=1: return False, f"pattern occurs {s.count(old)} times in {file}"
@@ -51,7 +57,11 @@ def main():
     if not clean(): print("refusing: /repo working tree is not clean"); sys.exit(2)
     rows=[]
     items=[]
-    if "--benign" in args:
+    if "--benign-seeded" in args:
+        # property-preserving changes written by independent sub-agents (benign/<name>/patch.diff)
+        for d in sorted(glob.glob(f"{VERIF}/benign/*/patch.diff")):
+            items.append(("benign",os.path.basename(os.path.dirname(d)),ALL,("d",d)))
+    elif "--benign" in args:
         for (name,file,old,new) in catalogue.BENIGN: items.append(("benign",name,ALL,("r",file,old,new)))
     else:
         for (name,props,file,old,new) in catalogue.MUTANTS: items.append(("mutant",name,props,("r",file,old,new)))
@@ -92,7 +102,7 @@ def main():
                 print(rows[-1], flush=True)
         finally:
             revert()
-    tag = 'benign' if '--benign' in args else ('seeded' if '--seeded' in args and only else 'mutants')
+    tag = 'benign-seeded' if '--benign-seeded' in args else 'benign' if '--benign' in args else ('seeded' if '--seeded' in args and only else 'mutants')
     if only and tag == 'mutants': tag = 'partial'
     with open(f"{VERIF}/mutants/RESULTS-{tag}.md","w") as f:
         f.write("| kind | change | property | result | first failing sub-check |\n|---|---|---|---|---|\n")
